@@ -348,7 +348,7 @@ def sha(path):
 def c15_corpus():
     """Programs compiled by the C15 check: the four drivers plus a fixed, sorted sample of the
     repository's runtime tests (only files whose reference compile succeeds are kept)."""
-    files = [os.path.join(VERIF, "workloads", n + ".dora") for n in ("heapgraph", "sync", "trapio", "exhaust")]
+    files = [os.path.join(VERIF, "workloads", n + ".dora") for n in ("kitchen", "heapgraph", "sync", "trapio", "exhaust")]
     rt = []
     for root, _, names in os.walk(os.path.join(REPO, "test", "rt")):
         for n in names:
@@ -430,9 +430,12 @@ def c15(tier):
 
     def task(i):
         rng = tb.stream(s, "C15", i, "config")
-        src = corpus[i % len(corpus)]
+        src = corpus[(i // 2) % len(corpus)] if i < 2 * len(corpus) else corpus[i % len(corpus)]
         kind = rng.choices(["package", "asm", "exe"], [2, 5, 2])[0]
         cg = rng.choice(["cannon", "boots"])
+        if i < 2 * len(corpus):
+            # first pass over the corpus: every program once with each code generator
+            cg = ["cannon", "boots"][i % 2]
         gc = rng.choice(["swiper", "copy", "sweep", "zero"])
         nbuilds = 3
         sibling = rng.random() < 0.35
